@@ -21,6 +21,10 @@ use tokio_util::codec::{Framed, LengthDelimitedCodec};
 #[path = "tests/reliable_sender_tests.rs"]
 pub mod reliable_sender_tests;
 
+#[cfg(all(test, feature = "hotstuff_verif"))]
+#[path = "/verif/replay/network_reliable_sender.rs"]
+mod verif_replay;
+
 /// Convenient alias for cancel handlers returned to the caller task.
 pub type CancelHandler = oneshot::Receiver<Bytes>;
 
